@@ -77,8 +77,50 @@ def minors2(u, v):
     return [u[i] * v[j] - u[j] * v[i] for i in range(len(u)) for j in range(i + 1, len(u))]
 
 
+def _fast_proportional(u, v):
+    """syntactic shortcut (symbolic mode): if for a pivot k with v_k a non-zero polynomial all u_i v_k - u_k v_i are
+    identically zero, then all 2x2 minors vanish identically (polynomial ring without reduction rules = integral domain)."""
+    from symgeo.alg import Alg, Cx
+    from symgeo.state import cur
+    P = cur()
+    us, vs = [], []
+    for x in list(u) + list(v):
+        if isinstance(x, Cx) or not isinstance(x, (Alg, int, float)):
+            return False
+    us = [Alg.of(x) for x in u]
+    vs = [Alg.of(x) for x in v]
+    rulevars = set(P.rules)
+    for x in us + vs:
+        if x.special or x.d is not None:
+            return False
+        if rulevars and (x.n.vars() & rulevars):
+            return False
+    for a, b in ((us, vs), (vs, us)):
+        piv = next((k for k, x in enumerate(b) if not x.n.is_zero()), None)
+        if piv is None:
+            return all(x.n.is_zero() for x in b)   # b == 0 identically: dependent
+        ok = True
+        for i in range(len(a)):
+            if i == piv:
+                continue
+            if not (a[i] * b[piv] - a[piv] * b[i]).n.is_zero():
+                ok = False
+                break
+        if ok:
+            return True
+        return False
+    return False
+
+
 def proportional(ctx, u, v):
     """u, v linearly dependent (all 2x2 minors vanish)"""
+    if ctx.symbolic and len(u) > 3:
+        try:
+            if _fast_proportional(u, v):
+                from symgeo.alg import TRUE
+                return TRUE
+        except Exception:
+            pass
     return ctx.all([ctx.is_zero(m) for m in minors2(u, v)])
 
 
